@@ -78,6 +78,8 @@ struct Plan {
   uint64_t seed = 0, runseed = 0;
   int locale = LOC_C;
   int reuse = 0;                  // allocator reuse mode: freed blocks are handed out again at once (rt.cc)
+  int perturb = 0;                // mem engine: also execute the partner run with another `fill` and compare results
+  int fill = 0;                   // byte that fresh heap blocks and dead stack slots hold (0: default); perturbation partner of a run
   std::vector<Op> setup;          // executed by the controller before tasks start (shared read-only objects)
   std::vector<TaskPlan> tasks;
   SchedCfg sched;
